@@ -14,7 +14,8 @@ EXPLANATION = (
     "connection; (R3) Message::Shutdown is never forwarded into the broker queue; (R5) a connection is torn down only for its own faults: every "
     "push_remove_conn(X) is controlled by a failed send to X itself or by a handler error of a message sent by X, and in the connection task the "
     "teardown edge after send_message must have only transport causes. The last rule FAILS on today's tree for VersionedMessage::convert_value (a foreign "
-    "payload) — recorded as known finding F3. Not decided: panics behind internal-key expects and Channel::close's unreachable arms over all histories; hangs."
+    "payload) — recorded as known finding F3; (R6) the premise of the panicking arm of Channel::close on the client-driven path: check_close never answers Ok "
+    "for an end that is already Closed and the CloseChannelEnd handler reaches Channel::close only on that Ok. Not decided: panics behind internal-key expects and Channel::close's unreachable arms over all histories; hangs."
 )
 
 DIRECT = re.compile(r"^(req(\.[\w.]+)?|id|msg(\.[\w.]+)?)$")
@@ -187,3 +188,42 @@ def run(rep):
                      line=after_send[0].line if after_send else None, extra={"causes": sorted(causes)})
     else:
         rep.fail("C11-R5", "aldrin_broker::conn::Connection::send_message", "body", "send_message / run body not found")
+
+    # ---- R6 premises of the panicking arms of Channel::close on the client-driven path ---------------
+    # Channel::close panics (unreachable!()) when the named end is already Closed. A client reaches it through
+    # CloseChannelEnd -> check_close == Ok -> remove_channel_end -> close: check_close must not answer Ok for a Closed end.
+    r6(rep, prog, M)
+
+
+CHS = "aldrin_broker::broker::channel::"
+
+
+def r6(rep, prog, M):
+    cl = prog.one("^" + re.escape(CHS) + r"Channel::close$")
+    pc = [c for c in cl.calls if re.search(r"core::panicking::", c.callee or "")]
+    rep.floor("C11-R6", "panicking arms of Channel::close", len(pc), 1)
+    cc = prog.one("^" + re.escape(CHS) + r"Channel::check_close$")
+    # the switch on the end's state
+    n = 0
+    for u in sorted(cc.live_blocks()):
+        g = cc.switch_guard(u) if cc.blocks[u]["t"]["k"] == "switch" else None
+        if not g or g.get("kind") != "variant" or not (g.get("adt") or "").endswith("::ChannelEndState"):
+            continue
+        t = cc.blocks[u]["t"]
+        val = [v for v, nme in g["labels"].items() if nme == "Closed"]
+        tgt = [bb for (v, bb) in t["v"] if v in val] or [t["o"]]
+        reach = cc.reachable(tgt[0])
+        oks = []
+        for i in sorted(reach):
+            for st in cc.blocks[i]["s"]:
+                r = st["r"]
+                if r["k"] == "agg" and r.get("ak") == "adt" and r["adt"].endswith("::CloseChannelEndResult") and r.get("variant") == "Ok":
+                    oks.append(i)
+        n += 1
+        rep.check(not oks, "C11-R6", cc.def_, "closed-end-not-closable", "check_close answers Ok for an end that is already Closed: a second CloseChannelEnd from any client then reaches the unreachable!() arm of Channel::close and the broker panics",
+                  detail={"ok_blocks": oks})
+    rep.floor("C11-R6", "state switches of check_close", n, 1)
+    ch = M["close_channel_end"]
+    rce = [c for c in ch.calls if c.name == "remove_channel_end"]
+    ok = bool(rce) and all(broker.has_guard(ch, c.bb, r"^True=PartialEq::eq\(Channel::check_close\(.*\)\.0, CloseChannelEndResult::Ok\(\)\)$") for c in rce)
+    rep.check(ok, "C11-R6", ch.def_, "close-only-after-check", "the CloseChannelEnd handler must reach Channel::close only when check_close answered Ok", detail={"sites": len(rce)})
